@@ -127,6 +127,14 @@ Theorem internal_iff_in_zone_after_fix : forall b l,
 Proof. exact bta_fixed_spec. Qed.
 Print Assumptions internal_iff_in_zone_after_fix.
 
+(* ... and the model of the running code inherits it as soon as the switch is flipped
+   (vacuous today; instantiate the premise with eq_refl after the fix) *)
+Theorem internal_implies_in_zone_full_when_fixed : fix_applied = true -> forall b l a,
+  (bytes_to_address b l = Internal a -> a = to20 b /\ in_zone a l = true)
+  /\ (bytes_to_address b l = External a -> a = to20 b /\ in_zone a l = false).
+Proof. exact internal_in_zone_when_fixed. Qed.
+Print Assumptions internal_implies_in_zone_full_when_fixed.
+
 (* Scope / ledger predicates agree with the class of the constructors *)
 Theorem predicates_agree_with_class : forall a l, wf20 a -> valid_zone l ->
   (check_internal_qi a l = true <-> (exists x, bytes_to_address a l = Internal x) /\ is_qi a = true)
